@@ -21,6 +21,7 @@ type structFieldSet struct {
 	key         string
 	keyLen      int64
 	err         error
+	depth       int // embedding depth of the field below the struct being decoded
 }
 
 type structDecoder struct {
